@@ -96,6 +96,8 @@ def bounded(tier, seed):
                     discarding = True
                 elif op == "expand" and roots:
                     r = rnd.choice(roots)
+                    if any(x.name == "references" and x.children for x in reachable([r])):
+                        continue     # a references node with element children (an attach above made one) is outside expand's domain (C16: references are leaves)
                     try:
                         references.expand(r)
                         discarding = True
